@@ -34,6 +34,10 @@ pub enum Outcome {
     Encoded,
 }
 
+pub fn check_diagnostic<E: Diagnostic>(stage: &str, e: &E, src: &str, out: &mut Vec<(String, String)>) {
+    check_diag(stage, e, src, out)
+}
+
 fn check_diag<E: Diagnostic>(stage: &str, e: &E, src: &str, out: &mut Vec<(String, String)>) {
     for sp in real::labels(e) {
         if let Some(d) = real::span_defect(src, sp) {
@@ -353,7 +357,12 @@ pub fn run(args: &[String]) -> ! {
     let mut ctx = Ctx::new("C14", "fault_enumeration", args);
     if let Some(case) = ctx.replay_case() {
         let case = case.clone();
-        let vs = if let Some(fam) = case["family"].as_str() {
+        let vs = if case.get("seed").is_some() {
+            crate::c14_bytes::replay(&case)
+        } else if case["kind"] == "pairing" {
+            let p = crate::c14_bytes::pairings(if case["tier"] == "thorough" { Tier::Thorough } else { Tier::Quick });
+            p.violations.into_iter().filter(|(_, _, c)| c["document"] == case["document"] && c["variant"] == case["variant"]).map(|(f, w, _)| (f, w)).collect()
+        } else if let Some(fam) = case["family"].as_str() {
             nesting_violations(fam, case["depth"].as_u64().unwrap_or(1) as usize).1
         } else {
             let text = case["text"].as_str().unwrap_or_else(|| mc_core::machinery_error("replay case needs `text` or `family`+`depth`"));
@@ -465,9 +474,23 @@ pub fn run(args: &[String]) -> ! {
     }
     samples.offer(|| json!({"family": "new", "depth": 2, "text": family_text("new", 2)}));
 
+    // byte half: package byte strings and document/package pairings
+    let sw = crate::c14_bytes::sweep(tier);
+    for (fp, what, case) in sw.violations {
+        ctx.violation(fp, what, case);
+    }
+    let pairings = crate::c14_bytes::pairings(tier);
+    let (pairings_cases, pairings_resolved) = (pairings.cases, pairings.resolved);
+    for (fp, what, mut case) in pairings.violations {
+        case["tier"] = json!(tier.as_str());
+        ctx.violation(fp, what, case);
+    }
+
     let mut cov = Map::new();
-    cov.insert("evaluations".into(), json!(st.evaluations));
-    cov.insert("distinct_nontrivial".into(), json!(all.len()));
+    cov.insert("evaluations".into(), json!(st.evaluations + sw.cases + pairings_cases));
+    cov.insert("distinct_nontrivial".into(), json!(all.len() as u64 + sw.decoded + pairings_resolved));
+    cov.insert("byte_half".into(), json!({"package_byte_strings": sw.cases, "decoded_as_packages": sw.decoded, "decoded_and_encoded_in_both_modes": sw.encoded, "cases_by_seed": sw.by_seed,
+        "document_package_pairings": pairings_cases, "pairings_that_resolve": pairings_resolved}));
     cov.insert(
         "rule".into(),
         json!(format!(
@@ -497,7 +520,7 @@ pub fn run(args: &[String]) -> ! {
     ctx.finish(
         cov,
         vec![
-            "text half only: package byte strings and document/package pairings are enumerated by the byte half of C14; here every accepted text is resolved against the empty package set and, if that succeeds, encoded with default options".into(),
+            "text half: every accepted text is resolved against the empty package set and, if that succeeds, encoded with default options; byte half: every prefix, single-bit flip and single-byte substitution by {00,01,7F,80,FF} of the library components and repository fixtures is decoded with Package::from_bytes (and, when it decodes, instantiated and encoded in both modes) in supervised worker processes; pairings: 5 documents x each referenced package {missing, replaced by each other package, 50/400 evenly spaced byte mutants}".into(),
             "in-process cases are run under catch_unwind; inputs that can exhaust the stack (nesting families) run in supervised worker processes on a thread with an 8 MiB stack".into(),
             "`&str` inputs only: byte faults that would produce invalid UTF-8 are not representable and are replaced by whole-character substitutions".into(),
         ],
